@@ -94,7 +94,11 @@ def moveaxis_case(ctx: Ctx, stream: str, i: int) -> None:
     ctx.case(f'moveaxis:{cfg}', st == 'ok' and src != dst, sample={'op': 'moveaxis', **cfg, 'status': st})
 
 
-def ravel_case(ctx: Ctx, stream: str, i: int) -> None:
+RAVEL_GRID = [(ranks, f, l) for ranks in ((1, 2), (2, 1), (1, 3), (3, 1), (2, 3), (3, 2), (2, 2), (3, 3))
+              for f in range(-3, 3) for l in range(-3, 3)]
+
+
+def ravel_case(ctx: Ctx, stream: str, i: int, forced=None) -> None:
     from furax._base.axes import RavelOperator
     from furax._base.core import IdentityOperator
     rng = ctx.rng(stream, i)
@@ -104,6 +108,11 @@ def ravel_case(ctx: Ctx, stream: str, i: int) -> None:
     last = rng.randint(-4, 3)
     if rng.random() < 0.3:
         first, last = 0, -1
+    if forced is not None:
+        # the whole grid of (first, last) over pairs of leaves of DIFFERENT rank: every leaf has its say
+        ranks, first, last = forced
+        nleaf = len(ranks)
+        shapes = [rand_shape(rng, r) for r in ranks]
     structure = [jax.ShapeDtypeStruct(s, jnp.float32) for s in shapes]
     if nleaf == 1 and rng.random() < 0.5:
         structure = structure[0]
@@ -339,6 +348,9 @@ def run(ctx: Ctx) -> None:
     for i in range(n):
         if ctx.want('moveaxis', i):
             moveaxis_case(ctx, 'moveaxis', i)
+    for i, form in enumerate(RAVEL_GRID):
+        if ctx.want('ravelgrid', i):
+            ravel_case(ctx, 'ravelgrid', i, forced=form)
     for i in range(n):
         if ctx.want('ravel', i):
             ravel_case(ctx, 'ravel', i)
